@@ -23,9 +23,9 @@ Theorem C16_types_canonical : forall m1 m2,
 Proof. exact sorted_canonical. Qed.
 Print Assumptions C16_types_canonical.
 
-(* routes: the build-script output is header, prefix and the code of the one
-   shared entry point (CodegenGrammar::generate_code with default settings) *)
+(* routes: the build-script output is the header lines (which name grammar and prefix), the
+   prefix and the code of the one shared entry point (CodegenGrammar::generate_code) *)
 Theorem C16_routes : forall hdr fmt c g code,
-  format c = false -> output hdr fmt c g code = hdr g ++ NL ++ prefix c ++ NL ++ code.
-Proof. intros. unfold output, source_header. rewrite H. rewrite <- !app_assoc. reflexivity. Qed.
+  format c = false -> output hdr fmt c g code = hdr g (prefix c) ++ NL ++ prefix c ++ NL ++ code.
+Proof. intros. unfold output, content, source_header. rewrite H. reflexivity. Qed.
 Print Assumptions C16_routes.
